@@ -1,5 +1,6 @@
 import Glom.Lemmas.Frames
 import Glom.Lemmas.Hoare
+import Glom.Lemmas.MonadLaws
 /-
   C07 — isolation lemmas: which scopes a container spec hands to its sub-specs.
   `dictLoop`, `listLoop`, `coalesceLoop`, `andLoop`, `orLoop`, `mapLoop`, `pairLoop`
@@ -75,4 +76,71 @@ theorem orLoop_congr (p : Prims) {rec1 rec2 : Rec σ} (target : V) (sc : σ) (h 
     | cons c2 r2 => simp only [orLoop, h c target, ih]
 
 end
+end Glom.Interp
+
+/-! ### chains: what every link inherits, whatever the steps in between return -/
+namespace Glom.Interp
+open ScopeAlg
+
+section
+variable {σ : Type} [ScopeAlg σ]
+
+theorem M.bind_congr_on {α β} (m : M α) (f g : α → M β)
+    (h : ∀ st st' a, m st = (st', .ok a) → f a st' = g a st') : m >>= f = m >>= g := by
+  apply M.ext; intro st
+  rw [M.bind_apply, M.bind_apply]
+  rcases hm : m st with ⟨st', r⟩
+  cases r with
+  | error e => rfl
+  | ok a => exact h st st' a hm
+
+/-- **Chain invariant.**  Let `P` be a property of scopes that `chain_child` keeps and that every
+    step of the chain keeps (a step handed a scope with `P` finishes in a scope with `P`).  Once a
+    link finished in a scope with `P`, `_handle_tuple` evaluates *every* later step at a scope with
+    `P` — whatever the steps return (a value, SKIP: the loop hands on the finished scope of the
+    step in both cases): the evaluator's behaviour at scopes without `P` is irrelevant. -/
+theorem tupleLoop_inv_congr (P : σ → Prop) {rec1 rec2 : Rec σ}
+    (hchain : ∀ owner c : σ, P c → P (chain owner c)) :
+    ∀ (steps : List Spec),
+      (∀ s ∈ steps, ∀ t c st st' r, P c → rec1 s t c st = (st', .ok r) → P r.2) →
+      (∀ s ∈ steps, ∀ t c, P c → rec1 s t c = rec2 s t c) →
+      ∀ (res : V) (cur c0 : σ), P c0 →
+        tupleLoop rec1 steps res cur (some c0) = tupleLoop rec2 steps res cur (some c0) := by
+  intro steps
+  induction steps with
+  | nil => intro _ _ res cur c0 _; rfl
+  | cons sub rest ih =>
+    intro hkeep hag res cur c0 h0
+    have hsc : P (chain cur c0) := hchain cur c0 h0
+    have hk' : ∀ s ∈ rest, ∀ t c st st' r, P c → rec1 s t c st = (st', .ok r) → P r.2 :=
+      fun s hs => hkeep s (List.mem_cons_of_mem _ hs)
+    have ha' : ∀ s ∈ rest, ∀ t c, P c → rec1 s t c = rec2 s t c :=
+      fun s hs => hag s (List.mem_cons_of_mem _ hs)
+    have ih' := ih hk' ha'
+    simp only [tupleLoop, nextScope]
+    rw [← hag sub (List.mem_cons_self ..) res (chain cur c0) hsc]
+    apply M.bind_congr_on
+    intro st st' a ha
+    have hp : P a.2 := hkeep sub (List.mem_cons_self ..) res (chain cur c0) st st' a hsc ha
+    obtain ⟨v, c1⟩ := a
+    cases v <;> first | rfl | exact congrFun (ih' _ (chain cur c0) c1 hp) st'
+
+end
+end Glom.Interp
+
+/-! ### a minimal `Prims` for concrete examples -/
+namespace Glom.Interp
+
+/-- nothing of Python's is needed by binders, readers and `Val` -/
+def trivPrims : Prims :=
+  { eq := fun _ _ => false, truthy := fun _ => true, hashable := fun _ => true, isinstance := fun _ _ => false,
+    iterate := fun _ => .error ⟨"TypeError"⟩, getSeg := fun _ _ => .error ⟨"PathAccessError"⟩,
+    tEval := fun steps v => match steps with | [] => .ok v | _ => .error ⟨"Unsupported"⟩,
+    applyFn := fun _ _ _ => .error ⟨"TypeError"⟩, applyTy := fun _ _ => .error ⟨"TypeError"⟩,
+    isSub := fun a b => a == b || b == "GlomError" || b == "Exception", typeName := fun _ => "object" }
+
+def isOkInt (r : St × Except Err V) (n : Int) : Bool := match r.2 with | .ok (.int i) => i == n | _ => false
+def isOkStr (r : St × Except Err V) (s : String) : Bool := match r.2 with | .ok (.str i) => i == s | _ => false
+def isErr (r : St × Except Err V) (c : String) : Bool := match r.2 with | .error e => e.cls == c | _ => false
+
 end Glom.Interp
